@@ -371,6 +371,20 @@ fn main() {
                 Ok(v) => v,
                 Err(e) => json!({"panic": panic_msg(e)}),
             },
+            "prompt" => match catch_unwind(AssertUnwindSafe(|| {
+                // prompt::get_prompt renders $PROMPT; shell variables of the case shadow nothing (get_env: shell first)
+                std::env::set_var("PROMPT", &line);
+                let mut psh = x::shell::Shell::new();
+                if let Some(m) = case.get("shv").and_then(|v| v.as_object()) {
+                    for (k, v) in m {
+                        psh.set_env(k, v.as_str().unwrap_or(""));
+                    }
+                }
+                json!({"prompt": x::prompt::get_prompt(&psh)})
+            })) {
+                Ok(v) => v,
+                Err(e) => json!({"panic": panic_msg(e)}),
+            },
             "stages" => stages(&mut sh, &line, false),
             "cheap" => stages(&mut sh, &line, true),
             "calc" => match catch_unwind(AssertUnwindSafe(|| {
